@@ -321,6 +321,11 @@ def cmd_selftest(nplans, workers):
     orchestrator hash seeds."""
     import subprocess
     bad = 0
+    rc = subprocess.run([orch.PYTHON, os.path.join(orch.VERIF, "tools", "selfcheck_oracles.py")],
+                        env=dict(os.environ, PYTHONPATH=orch.VERIF)).returncode
+    if rc != 0:
+        print("SELFTEST: the reference model's own sanity checks failed")
+        bad += 1
     names = sorted(scen.SCENARIOS)
     plans = []
     for k in range(nplans):
